@@ -56,9 +56,9 @@ FUNCTIONS_B = ["ttconv.srt.writer:from_model", "ttconv.srt.writer:SrtContext.app
 
 
 WRITER_SHAPES_QUICK = [("twop", ("b1", "e1")), ("twop", ("e1", "b2")), ("nested", ("s1b", "s3e")), ("nested", ("pb", "s1e")), ("rubyparts", ("rtb", "rte")),
-                       ("rubyparts", ("rbb", "rte")), ("brset", ("pb", "pe"))]
+                       ("rubyparts", ("rbb", "rte")), ("brset", ("pb", "pe")), ("order", ("p1b", "p2b"))]
 WRITER_SHAPES_THOROUGH = [("twop", ("b1", "e1", "e2")), ("nested", ("s1b", "s3b", "s3e")), ("rubyparts", ("rt2b", "rt2e", "rp1e")), ("regions", ("r1b", "r1e")),
-                          ("regions", ("d2b", "p3e")), ("ruby", ("rub", "rue"))]
+                          ("regions", ("d2b", "p3e")), ("ruby", ("rub", "rue")), ("order", ("p1e", "p2b", "p3b"))]
 
 
 def all_harnesses(tier):
